@@ -625,3 +625,6 @@ mutant("M103-coord-maps-keyed-by-name", ["C15"], "PROXY-KEYS-1", (PBW, "        
 
 mutant("M104-split-every-divides-by-len", ["C17"], "DIVZERO-1", (OPS, "        n = builtins.max(int(split_every ** (1 / (len(axis) or 1))), 2)", "        n = builtins.max(int(split_every ** (1 / len(axis))), 2)"))
 mutant("M105-spec-check-by-identity", ["C18", "C19", "C20"], "SPEC-CHECK-2", (ARRAY, "    if not all(s == specs[0] for s in specs):", "    if not all(s is specs[0] for s in specs):"))
+
+mutant("M106-reduced-chunks-sized-with-input-dtype", ["C03"], "MEM-DTYPE-1", (OPS, "    extra_projected_mem = x.chunkmem + 2 * array_memory(dtype, to_chunksize(chunks))", "    extra_projected_mem = x.chunkmem + 2 * array_memory(x.dtype, to_chunksize(chunks))"))
+mutant("M107-work-dir-used-directly", ["C19", "C20", "C10"], "CLEANUP-1", (PLAN, "    context_dir = join_path(work_dir, CONTEXT_ID)\n    delete_on_exit(context_dir)\n    return context_dir", "    if spec is not None and spec.work_dir is not None:\n        return str(spec.work_dir)\n    context_dir = join_path(work_dir, CONTEXT_ID)\n    delete_on_exit(context_dir)\n    return context_dir"))
